@@ -89,6 +89,12 @@ class CallGen:
             pre.append(['setq', 'fn', ['let', [['k', 5]], ['lambda', ps] + [['progn', 'k'] ] + body]]); fexpr = 'fn'; head = 'fn'
         elif kind == 'macro':
             pre.append(['defmacro', 'callee', ps] + [['tick', 1999, ['list', Q('quote'), ['list'] + names]]]); fexpr = None; head = 'callee'
+        if route in ('mapcar', 'seq-map', 'seq-filter', 'seq-find') and kind != 'macro':
+            # the callee applied to one element at a time by a sequence function: one argument per call, whatever the shape
+            elems = Q([1, Q('s') if False else 's', [2, 3], None])
+            fx = fexpr if kind != 'defun' or r.random() < 0.5 else FQ('callee')
+            call = [route, fx, self.tk(elems) if hasattr(self, 'tk') else elems]
+            return [pre, [call], [['list'] + PNAMES]]
         if route == 'direct' or kind == 'macro': call = [head] + args
         elif route == 'funcall': call = ['funcall', fexpr] + args
         elif route == 'funcall-sharp' and kind == 'defun': call = ['funcall', FQ('callee')] + args
